@@ -378,10 +378,19 @@ def check_pair_constructor(ctx: Ctx):
     if ext and any(o_.attrs.get("n_dim") not in (Sym("REF.ndim"), Sym("PRED.ndim")) for o_, it_ in holder):
         ctx.violated("R10.4", init, ext[0], construct + ":n_dim", "the recorded dimensionality is computed from the extents of the axes: a singleton axis or padding changes it (and with it the connected-component backend)", {"n_dim": sorted({repr(o_.attrs.get('n_dim')) for o_, _ in holder})[:4]})
         return
-    out, (o, it) = outs[0], holder[0]
-    if len(outs) != 1 or out.kind == "raise" or out.decisions:
-        ctx.undecided("R10.4", init, out.node, construct, f"pair constructor not evaluable: {out.kind} {out.exc} {[norm(d[0]) for d in out.decisions if isinstance(d[0], ast.AST)][:2]}")
-        return
+    base_construct = construct
+    for out, (o, it) in zip(outs, holder):
+        facts = all(isinstance(d[1], Unknown) and str(d[1].tag).startswith("dtype-fact") for d in out.decisions)
+        construct = base_construct + ("[" + "; ".join(f"{d[1].tag}={d[2]}" for d in out.decisions)[:120] + "]" if out.decisions and facts else "")
+        if out.kind == "raise" or (out.decisions and not facts):
+            ctx.undecided("R10.4", init, out.node, construct, f"pair constructor not evaluable: {out.kind} {out.exc} {[norm(d[0]) for d in out.decisions if isinstance(d[0], ast.AST)][:2]}")
+            continue
+        _judge_pair(ctx, init, construct, o)
+
+
+def _judge_pair(ctx, init, construct, o):
+    from .arrdom import AArr
+
     nd = o.attrs.get("n_dim")
     ctx.decide("R10.4", init, init.node, construct + ":n_dim", "the recorded dimensionality is the arrays' ndim", nd in (Sym("REF.ndim"), Sym("PRED.ndim")), {"got": repr(nd)})
     for attr, side in (("_ref_labels", "REF"), ("_pred_labels", "PRED")):
